@@ -293,6 +293,53 @@ def batch_near_misses(ctx):
     ctx.note_batch("near-miss-index-lambdas", cases, dis, exhaustive=False, refused_as_not_supported=refused)
 
 
+def batch_api_table(ctx):
+    """the public array API function by function (harness/apitable.py): generated Python vs the NumPy function of
+    the same meaning applied to the same inputs (not vs pytato's own graph)"""
+    import pytato as pt
+    from .. import apitable
+    from .c01 import _num_close
+    cs = apitable.cases(ctx.seed, ctx.thorough)
+    cases = dis = refused = 0
+    with np.errstate(all="ignore"):
+        for c in cs:
+            if c["family"] == "sparse":
+                continue
+            inp = c["inputs"]
+            try:
+                ref = np.asarray(c["ref"](**inp))
+                node = c["build"](**{k: pt.make_placeholder(k, v.shape, v.dtype) for k, v in inp.items()})
+            except Exception:   # noqa: BLE001
+                continue
+            if not isinstance(node, pt.Array):
+                continue
+            cases += 1
+            fn = c["label"].split(":")[0]
+            try:
+                bp = pytarget.generate(pt.transform.deduplicate(pt.make_dict_of_named_arrays({"o": node})))
+            except _not_supported():
+                refused += 1
+                continue
+            except Exception as e:   # noqa: BLE001
+                dis += 1
+                ctx.violation(f"pytarget:api-table:generate:{fn}:{type(e).__name__}",
+                              f"{c['label']}: generate_numpy_like raised {type(e).__name__}: {e}", {"call": c["label"]})
+                continue
+            try:
+                got = np.asarray(bp(**{k: v for k, v in inp.items() if k in bp.expected_arguments})["o"])
+            except Exception as e:   # noqa: BLE001
+                dis += 1
+                ctx.violation(f"pytarget:api-table:runtime:{fn}:{type(e).__name__}",
+                              f"{c['label']}: generated code fails: {e}", {"call": c["label"], "source": bp.program})
+                continue
+            if not _num_close(got, ref, c.get("exact", False)):
+                dis += 1
+                ctx.violation(f"pytarget:api-table:value:{fn}",
+                              f"{c['label']}: generated Python gives {got.reshape(-1)[:6].tolist()}…, NumPy's {fn} "
+                              f"{ref.reshape(-1)[:6].tolist()}…", {"call": c["label"], "source": bp.program})
+    ctx.note_batch("api-table-vs-numpy-functions", cases, dis, exhaustive=False, refused_as_not_supported=refused)
+
+
 def batch_names(ctx):
     """every function name the target can emit must exist in numpy (the array module)"""
     from pytato.target.python import numpy_like as nl
@@ -328,6 +375,7 @@ def run(ctx: common.Ctx):
     batch_slices(ctx)
     batch_scalar_operands(ctx)
     batch_near_misses(ctx)
+    batch_api_table(ctx)
     batch_programs(ctx)
     ctx.broken = sorted(set(ctx.broken))[:50]
 
